@@ -2,28 +2,9 @@
 from __future__ import annotations
 
 from .. import gen, tlc, units
-from ..core import Ctx, Result, add_violation, digest
+from ..core import Ctx, Result
+from ..unitlib import run_unit_cases
 from ..tlc import MachineryError
-
-
-def book_units(ctx, res, cases, verdicts, st, *, nontrivial, sample_keys):
-    n_ok = 0
-    seen, nontriv = set(), set()
-    for c in cases:
-        v = verdicts[c["cid"]]
-        h = digest({k: c.get(k) for k in sample_keys})
-        seen.add(h)
-        if nontrivial(c):
-            nontriv.add(h)
-        if v["v"][0] == "ok":
-            n_ok += 1
-        elif v["v"][0] == "FAIL":
-            add_violation(ctx, res, v["v"][1], {"kind": "unit", "property": ctx.prop, "case": c, "verdict": v},
-                          f"case {c['cid']}: {v['v'][2][:300]}")
-    res.merge_cov(evaluations=len(cases), traces_validated_against_impl=n_ok, states=st["distinct"],
-                  transitions=st["generated"], tlc_runs=st["tlc_runs"])
-    res.coverage.setdefault("_seen", set()).update(seen)
-    res.coverage.setdefault("_nontriv", set()).update(nontriv)
 
 
 def run(ctx: Ctx) -> Result:
@@ -58,11 +39,8 @@ def run(ctx: Ctx) -> Result:
         m = gen.rand_model(mrng, {"p_r": 1.0, "p_per_filter": 0.7, "p_state_filter": 0.5, "T": [2, 3], "sizes": {"r": mrng.choice([2, 3, 4])}})
         for t in range(m["T"]):
             cases.append({"cid": len(cases), "fn": "scs-mdl", "mdl": m, "period": t, "jit_filter": (i + t) % 4 == 0})
-    done = units.run_units(cases, chunk=100)
-    verdicts, st = tlc.validate_traces("TraceUnits", done)
-    book_units(ctx, res, done, verdicts, st,
-               nontrivial=lambda c: c["fn"] == "scs-mdl" or (any(c["mask"]) and not all(c["mask"])),
-               sample_keys=("fn", "sshape", "cshape", "mask", "mdl", "period"))
+    run_unit_cases(ctx, res, cases, chunk=100, sample_keys=("fn", "sshape", "cshape", "mask", "mdl", "period"),
+                   nontrivial=lambda c: c["fn"] == "scs-mdl" or (any(c["mask"]) and not all(c["mask"])))
     res.merge_cov(states=mc["distinct"], transitions=mc["generated"], mc_states=mc["distinct"],
                   masks_enumerated=len(gen_cases), exhaustive=bool(thorough),
                   samples=[{k: v for k, v in c.items() if k in ("fn", "sshape", "cshape", "mask", "period", "is_last", "jit_filter")}
